@@ -86,7 +86,14 @@ func main() {
 				}
 			}
 			emit := func(kind string, s, e int, repl string) {
-				if (*mode == "sibling") != strings.HasPrefix(kind, "sibling:") {
+				wantMode := "token"
+				switch {
+				case strings.HasPrefix(kind, "sibling:"):
+					wantMode = "sibling"
+				case strings.HasPrefix(kind, "block:"):
+					wantMode = "block"
+				}
+				if *mode != wantMode {
 					return
 				}
 				if tc != nil && !tc.ok(path, src, s, e, repl) {
@@ -110,6 +117,43 @@ func main() {
 				case *ast.IfStmt:
 					s, e := off(x.Cond.Pos()), off(x.Cond.End())
 					emit("negate-if", s, e, "!("+string(src[s:e])+")")
+					// a check that was forgotten: the whole statement gone (only without else and without init)
+					if x.Else == nil && x.Init == nil {
+						emit("block:drop-if", off(x.Pos()), off(x.End()), "")
+						// … or a check that always fires: the body made unconditional
+						emit("block:if-always", off(x.Pos()), off(x.Body.Lbrace), "")
+					}
+					if x.Else != nil {
+						// the else branch forgotten
+						emit("block:drop-else", off(x.Body.Rbrace)+1, off(x.Else.End()), "")
+					}
+				case *ast.CaseClause:
+					if len(x.List) > 0 {
+						emit("block:drop-case", off(x.Pos()), off(x.End()), "")
+					}
+					if len(x.List) > 1 {
+						for k := range x.List {
+							// one alternative of the case list forgotten
+							var parts []string
+							for j, e := range x.List {
+								if j != k {
+									parts = append(parts, string(src[off(e.Pos()):off(e.End())]))
+								}
+							}
+							emit("block:drop-case-alt", off(x.List[0].Pos()), off(x.List[len(x.List)-1].End()), strings.Join(parts, ", "))
+						}
+					}
+				case *ast.ReturnStmt:
+					_ = x
+				case *ast.RangeStmt:
+					// the loop body run for the first element only
+					if len(x.Body.List) > 0 {
+						emit("block:loop-once", off(x.Body.Rbrace), off(x.Body.Rbrace), "break\n")
+					}
+				case *ast.ForStmt:
+					if len(x.Body.List) > 0 {
+						emit("block:loop-once", off(x.Body.Rbrace), off(x.Body.Rbrace), "break\n")
+					}
 				case *ast.UnaryExpr:
 					if x.Op == token.NOT {
 						s := off(x.OpPos)
@@ -176,9 +220,6 @@ func main() {
 							emit("swap-args", as, be, string(src[bs:be])+string(src[ae:bs])+string(src[as:ae]))
 						}
 					}
-				case *ast.ReturnStmt:
-					// `return x` for a single boolean literal is covered by lit:*; drop early `return` inside if-bodies is
-					// done through negate-if
 				}
 				return true
 			})
